@@ -330,3 +330,123 @@ def kernel_def(relpath, qualname, lean_name, params, arrays=(), tuples=None, ret
     body = "\n".join("  " + ln for ln in k.lines + [val])
     d = f"/-- {doc or 'generated from `' + relpath + ':' + qualname + '`'} -/\n"
     return f"{d}def {lean_name} {' '.join(sig)} : {ret_type} :=\n{body}\n"
+
+
+# ----------------------------------------------------------------------------------------------------------------
+# the per-peak body of `evaluate_correlations`
+# ----------------------------------------------------------------------------------------------------------------
+
+def _shift_component(relpath, comp, anchor, crop, typ):
+    """`_shift(relative_center, anchor, crop_size)` for one component: the return expression of `_shift` with the vector
+    arguments replaced by one component each and `np.array((crop_size, crop_size))` by `crop_size`"""
+    fn = find_def(relpath, "_shift")
+    args = [a.arg for a in fn.args.args]
+    ret = [s for s in stmts_of(fn) if isinstance(s, ast.Return)]
+    if len(args) != 3 or len(ret) != 1 or len(stmts_of(fn)) != 1:
+        raise Untranslatable("_shift is not a single return of three arguments")
+
+    class Sub(ast.NodeTransformer):
+        def visit_Call(self, node):
+            if ast.unparse(node.func) == "np.array" and len(node.args) == 1 and isinstance(node.args[0], ast.Tuple) \
+                    and all(ast.unparse(e) == args[2] for e in node.args[0].elts) and len(node.args[0].elts) == 2:
+                return ast.Name(id=args[2], ctx=ast.Load())
+            self.generic_visit(node)
+            return node
+    expr = Sub().visit(_copy(ret[0].value))
+    env = Env(vars={args[0]: (comp, typ), args[1]: (anchor, INT), args[2]: (crop, INT)})
+    return tr(expr, env)
+
+
+def evaluate_loop_def(relpath, lean_name="evaluate_one"):
+    fn = find_def(relpath, "evaluate_correlations")
+    loops = [s for s in stmts_of(fn) if isinstance(s, ast.For)]
+    if len(loops) != 1 or len(stmts_of(fn)) != 1:
+        raise Untranslatable("evaluate_correlations is not a single loop")
+    loop = loops[0]
+    if not (isinstance(loop.target, ast.Name) and ast.unparse(loop.iter) == "range(len(corrs))"):
+        raise Untranslatable(f"evaluate_correlations loop header {ast.unparse(loop.iter)}")
+    i = loop.target.id
+    k = KEnv()
+    k.kernels = {"center_of_mass": "center_of_mass"}
+    k.env.vars["sqrt"] = ("sqrt", "FN")
+    k.env.vars["crop_size"] = ("crop_size", INT)
+    k.tuples[f"peaks[{i}]"] = [("peak0", INT), ("peak1", INT)]
+    outs = {}
+    arr_name = None
+    for s in loop.body:
+        if not (isinstance(s, ast.Assign) and len(s.targets) == 1):
+            raise Untranslatable(f"evaluate_correlations body statement {ast.unparse(s)[:50]}")
+        t, v = s.targets[0], s.value
+        tv = ast.unparse(v)
+        if isinstance(t, ast.Name) and tv == f"corrs[{i}]":
+            arr_name = t.id
+            k.arrs[t.id] = Arr(t.id, f"{t.id}_n", f"{t.id}_m")
+            continue
+        if isinstance(t, ast.Name) and isinstance(v, ast.Call) and ast.unparse(v.func) == "unravel_index":
+            if [ast.unparse(a) for a in v.args] != [f"np.argmax({arr_name})", f"{arr_name}.shape"]:
+                raise Untranslatable(f"unravel_index arguments {tv}")
+            a = k.arrs[arr_name]
+            k.lines.append(f"let idx : Int := ((Model.argmaxFirst (Model.flat {a.fn} {a.n} {a.m}) : Nat) : Int)")
+            bind(k, t.id + "_y", f"idx / {a.m}", INT)
+            bind(k, t.id + "_x", f"idx % {a.m}", INT)
+            k.tuples[t.id] = [k.env.vars[t.id + "_y"], k.env.vars[t.id + "_x"]]
+            continue
+        if isinstance(t, ast.Name) and isinstance(v, ast.Call) and ast.unparse(v.func) == "np.array" and len(v.args) == 1 \
+                and isinstance(v.args[0], ast.Call) and ast.unparse(v.args[0].func) == "refine_center":
+            c = v.args[0]
+            if len(c.args) != 3 or c.keywords or not (isinstance(c.args[0], ast.Name) and c.args[0].id in k.tuples):
+                raise Untranslatable(f"refine_center call {ast.unparse(c)}")
+            (cy, _), (cx, _) = k.tuples[c.args[0].id]
+            r, tr_ = scalar(c.args[1], k)
+            a = arr_expr(c.args[2], k)
+            call = f"(refine_center {a.fn} {a.n} {a.m} {cy} {cx} {r})"
+            bind(k, t.id + "_y", f"{call}.1", RAT)
+            bind(k, t.id + "_x", f"{call}.2", RAT)
+            k.tuples[t.id] = [k.env.vars[t.id + "_y"], k.env.vars[t.id + "_x"]]
+            continue
+        if isinstance(t, ast.Name) and isinstance(v, ast.Call) and ast.unparse(v.func) in ("np.float32", "np.float64") \
+                and isinstance(v.args[0], ast.Subscript) and isinstance(v.args[0].slice, ast.Name) \
+                and v.args[0].slice.id in k.tuples:
+            a = arr_expr(v.args[0].value, k)
+            (cy, _), (cx, _) = k.tuples[v.args[0].slice.id]
+            bind(k, t.id, f"({a.fn} {cy} {cx})", RAT)
+            continue
+        if isinstance(t, ast.Subscript) and ast.unparse(t.slice) == i and isinstance(t.value, ast.Name):
+            out = t.value.id
+            if isinstance(v, ast.Call) and ast.unparse(v.func) == "_shift":
+                if len(v.args) != 3 or ast.unparse(v.args[1]) != f"peaks[{i}]" or ast.unparse(v.args[2]) != "crop_size":
+                    raise Untranslatable(f"_shift call {tv}")
+                src = v.args[0]
+                if isinstance(src, ast.Call) and ast.unparse(src.func) == "np.array" and len(src.args) == 1:
+                    src = src.args[0]
+                if not (isinstance(src, ast.Name) and src.id in k.tuples):
+                    raise Untranslatable(f"_shift argument {ast.unparse(v.args[0])}")
+                comps = []
+                for (val, typ), anchor in zip(k.tuples[src.id], ("peak0", "peak1")):
+                    e, te = _shift_component(relpath, val, anchor, "crop_size", typ)
+                    comps.append(coerce(e, te, typ))
+                outs[out] = "(" + ", ".join(comps) + ")"
+                continue
+            if isinstance(v, ast.Call) and ast.unparse(v.func) in ("np.float32", "np.float64") and isinstance(v.args[0], ast.Call) \
+                    and ast.unparse(v.args[0].func) == "peak_elevation":
+                c = v.args[0]
+                if len(c.args) != 3 or c.keywords or not (isinstance(c.args[0], ast.Name) and c.args[0].id in k.tuples):
+                    raise Untranslatable(f"peak_elevation call {ast.unparse(c)}")
+                (py, _), (px, _) = k.tuples[c.args[0].id]
+                a = arr_expr(c.args[1], k)
+                h, th = scalar(c.args[2], k)
+                outs[out] = f"(peak_elevation {a.fn} {a.n} {a.m} sqrt {py} {px} {coerce(h, th, RAT)} elev_rmin)"
+                continue
+            e, te = scalar(v, k)
+            outs[out] = coerce(e, te, RAT)
+            continue
+        raise Untranslatable(f"evaluate_correlations body statement {ast.unparse(s)[:60]}")
+    want = ["out_centers", "out_refineds", "out_heights", "out_elevations"]
+    if sorted(outs) != sorted(want):
+        raise Untranslatable(f"evaluate_correlations writes {sorted(outs)}")
+    a = k.arrs[arr_name]
+    body = "\n".join("  " + ln for ln in k.lines + ["(" + ", ".join(outs[w] for w in want) + ")"])
+    return ("/-- one iteration of the loop of `evaluate_correlations`: (centre, refined, height, elevation) of one correlation "
+            "map, re-anchored with `_shift`; the square root is a parameter, `none` = `+inf` -/\n"
+            f"def {lean_name} ({a.fn} : Int → Int → Rat) ({a.n} {a.m} : Int) (sqrt : Rat → Rat) (peak0 peak1 crop_size : Int) : "
+            f"(Int × Int) × (Rat × Rat) × Rat × Option Rat :=\n{body}\n")
